@@ -185,6 +185,15 @@ func (c *ChunkComposer) RunLoop(reader io.Reader, cb OnCompleteMessage) error {
 			if piece > limit {
 				piece = limit
 			}
+			// 空间不够放下这一段时，按已收到的长度翻倍扩容（不超过message剩余的长度），而不是只扩这一段：
+			// 否则chunk size很小（默认128）时，每个chunk都要重新申请并拷贝一次，大message的拷贝量是平方级的
+			if len(stream.msg.buff.WritableBytes()) < int(piece) {
+				room := stream.header.MsgLen - stream.msg.Len()
+				if room > limit {
+					room = limit
+				}
+				stream.msg.Grow(room)
+			}
 			if _, err := io.ReadFull(reader, stream.msg.buff.ReserveBytes(int(piece))); err != nil {
 				if err == io.EOF && got > 0 {
 					err = io.ErrUnexpectedEOF
